@@ -544,6 +544,11 @@ func (s *dsession) flush() []string {
 			if len(ps) > 1 && isErrReply(sbRep[i]) && (p.name == "set" || p.name == "setex" || p.name == "hmset" || p.name == "del") {
 				s.batchAbort = true
 			}
+			if isErrReply(sbRep[i]) {
+				// what the next successful write does: it commits the shared engine write batch. After a failed command that
+				// batch must be empty (aborted), otherwise the buffered half of the failed command is committed with it.
+				sb.kv.CommitBatchWrite()
+			}
 			fp, _, _ := sb.kv.VerifRawHash()
 			if isErrReply(sbRep[i]) && fp != s.prevFp {
 				s.viol("error-changed-state:"+p.name, fmt.Sprintf("%s @%d answered %s but the stored bytes changed (applied alone)", hexLine(p.args), p.ts, sbRep[i]))
@@ -585,6 +590,9 @@ func (s *dsession) flush() []string {
 			s.c.Note("apply-err:" + p.name + ":" + replies[i][4:])
 		}
 		s.c.Note("applied:" + p.name)
+	}
+	if allErr {
+		s.main.kv.CommitBatchWrite() // as above: nothing may be left in the shared write batch
 	}
 	fp1, _, _ := s.main.kv.VerifRawHash()
 	if allErr && fp0 != fp1 {
